@@ -40,8 +40,16 @@ MANIFEST_NOTE = ("Partial by nature: CPython, pybind11 (casting/overload resolut
                  "replaced by a direct g++ call on the source text the current generator produces. The translator covers the straight-line "
                  "lambdas and data of densevector.hh/fvector.hh/dynvector.hh and the binding lists of those plus vector.hh/tuplevector.hh; "
                  "arithmetic operators, NumPyVector, TupleVector, string.hh join and the Python side stay hand-modelled and are tied by the "
-                 "differential run only; a rewrite of a translated lambda outside the translator's grammar (other than formatting, renaming, "
-                 "commuted operands, braces, reordered unrelated cls.def calls) is reported as a broken obligation. "
+                 "differential run only. Translated bodies are normalised before they are matched and emitted in a canonical spelling (locals "
+                 "named by position, ordered operands of + * min max == !=, b>a as a<b, !(a<b) as b<=a, ?: / `if (c) n = e;` / std::min "
+                 "spellings of a minimum, integral casts in every syntax, x.empty(), const/auto locals with side-effect-free initialisers "
+                 "substituted incl. a hoisted static_cast<K*>(info.ptr), named strings and `s += e` steps, guard clause = if/else = inverted "
+                 "test, while loop with trailing ++i = for loop, index helper as closure / function of the header / written out in both "
+                 "accessors, DV(n,K(0)).size() = n, cls.def(..).def(..) chains, renamed parameters and captures), so such maintenance edits "
+                 "regenerate the byte-identical Lean file; other equivalent control flow of the index normalisation (one combined range test "
+                 "and a conditional shift) reaches Lean and is proved by case split + omega; what cannot be recognised soundly (iterator, "
+                 "range-for or count-down loops, std algorithms, stride not held in a local, merged buffer checks, `%`-based normalisation, "
+                 "brace initialisation of the vector) is reported as a broken obligation, never guessed. "
                  "Buffer layouts: contiguous, strided, reversed, columns, read-only broadcast (stride 0) and fields of packed records "
                  "(byte strides that are no multiple of the item size, unaligned entries; 16 layouts) for 10 NumPy element types incl. "
                  "non-native byte order; an unaligned buffer of doubles may be rejected by the FieldVector constructor (it is: NumPy exports "
@@ -49,7 +57,10 @@ MANIFEST_NOTE = ("Partial by nature: CPython, pybind11 (casting/overload resolut
                  "NumPyVector's unaligned double accesses are harmless. "
                  "Four defects found while building the check (negative indices in __setitem__/DynamicVector, FieldVector.copy() returning "
                  "zeros, NumPyVector ignoring strides, TypeError/OverflowError instead of IndexError for indices beyond ssize_t) are repaired "
-                 "by fixes/C20_*.patch (applied); the model describes the repaired code.")
+                 "by fixes/C20_*.patch (applied); the model describes the repaired code. A fifth, latent one (round five): the buffer constructor "
+                 "divides a negative byte stride by the unsigned sizeof(K), so i*stride overflows ssize_t for reversed views (undefined "
+                 "behaviour, right values only through wrap-around; not observable by the differential run) -- "
+                 "fixes/C20_buffer_negative_stride.patch; the generated term is the same before and after the repair.")
 TECHNIQUE = ('Lean 4 proof (effect/invariant structure, induction over programs) over a shared-store model of the bindings + translator for the '
              'straight-line lambdas, constants and binding lists + differential '
              'correspondence against freshly rebuilt extension modules (two build variants) with a plain-Python shadow oracle')
@@ -79,6 +90,12 @@ ASSUMPTIONS = [
     "the Lean model lean/DuneVerif/Model/C20.lean is hand-written; its fidelity to the bindings rests on this differential run, "
     "except for the parts tools/translators/tr_c20.py regenerates (index normalisation, constructor copy loops, buffer constructor "
     "arithmetic, string constants, the list of bindings), which theorems gen_* prove equal to the model on every run",
+    "the translator's normalisations are sound only as rewrites of C++ it recognises: substituting a local requires a side-effect-free "
+    "initialiser and that neither the local nor anything the initialiser reads is modified later; integral casts are dropped because "
+    "every value at those places (sizes, lengths, indices inside the vector) is far inside both ranges; translated integer arithmetic "
+    "is exact, so the unsigned division `strides[0] / sizeof(K)` and its signed repair `/ ssize_t(sizeof(K))` "
+    "(fixes/C20_buffer_negative_stride.patch) give the same generated term -- the theorem describes the signed division; "
+    "`python3 tools/translators/tr_c20.py --selftest` replays 18 respellings that must stay quiet and 33 edits that must not",
     "CPython 3.11, the vendored pybind11 and NumPy 2.4 are trusted (overload resolution, implicit conversions, buffer protocol, slicing)",
     "extension modules are compiled with g++ -O1 -UNDEBUG without MPI from $VERIF_REPO's current files; JIT module sources come from the "
     "current python/dune/generator code, only the cmake/make step of dune-py is replaced by a direct compiler call",
